@@ -60,6 +60,11 @@ func (s *zzStore) GetBalances(_ context.Context, q BalanceQuery) (Balances, erro
 			if s.kind == "sparse" && v.Sign() == 0 {
 				continue
 			}
+			if s.kind == "interned" {
+				// the store's own object, shared by every entry holding that amount
+				ab[as] = v
+				continue
+			}
 			ab[as] = new(big.Int).Set(v)
 		}
 		if s.kind == "sparse" && len(ab) == 0 {
@@ -102,7 +107,17 @@ func (s *zzStore) GetAccountsMetadata(_ context.Context, q MetadataQuery) (Accou
 
 func zzNewStore(kind string, e *zzEnv, meta AccountsMetadata) *zzStore {
 	s := &zzStore{kind: kind, truth: map[string]map[string]*big.Int{}, meta: meta}
+	priv := map[*big.Int]*big.Int{}
 	for k, v := range e.start {
+		if kind == "interned" {
+			// one private object per distinct harness number: aliased entries keep sharing it
+			c, ok := priv[v]
+			if !ok {
+				c = new(big.Int).Set(v)
+				priv[v] = c
+			}
+			v = c
+		}
 		aa := strings.Split(k, "/")
 		acc, as := aa[0], strings.Join(aa[1:], "/")
 		if s.truth[acc] == nil {
@@ -201,7 +216,7 @@ func ZZC10(script, varspec, metaSpec, flags string) {
 			ff[f] = struct{}{}
 		}
 	}
-	kinds := []string{"exact", "sparse", "superset", "static"}
+	kinds := []string{"exact", "sparse", "superset", "static", "interned"}
 	outs := make([]zzOutcome, len(kinds))
 	for i, k := range kinds {
 		st := zzNewStore(k, e, zzParseMeta(metaSpec))
@@ -218,5 +233,6 @@ func ZZC10(script, varspec, metaSpec, flags string) {
 	zzSameOutcome(outs[0], outs[1], "C10:exact-vs-sparse")
 	zzSameOutcome(outs[0], outs[2], "C10:exact-vs-superset")
 	zzSameOutcome(outs[0], outs[3], "C10:exact-vs-static")
+	zzSameOutcome(outs[0], outs[4], "C10:exact-vs-interned")
 	zzvrt.Reach("c10-end")
 }
